@@ -179,7 +179,11 @@ class Builtins:
                 r = r2
             return I.lift(r if isinstance(op, ast.Eq) else not r)
         if isinstance(op, (ast.Is, ast.IsNot)):
-            if a is NONE or b is NONE or isinstance(a, BoolV) or isinstance(b, BoolV):
+            other = b if a is NONE else a
+            if (a is NONE or b is NONE) and isinstance(other, Unknown) and other.meta.get("match_or_none"):
+                # a match object or None: `m is None` is `not m` (one decision per match attempt, however it is asked)
+                r = not I.truth(other)
+            elif a is NONE or b is NONE or isinstance(a, BoolV) or isinstance(b, BoolV):
                 r = I.try_equals(a, b)
                 if r is None:
                     r = I.equals(a, b, label.replace(" is not ", " is "))
@@ -278,9 +282,13 @@ class Builtins:
     # ------------------------------------------------------------------ subscripts
     def subscript(self, base: Value, idx: Value, node, fr) -> Value:
         I = self.I
+        base = I.as_tuple(base)
         if isinstance(base, ListV) and base.absorbed is not None:
             base = base.absorbed
         if isinstance(base, (ListV, TupleV)):
+            if isinstance(idx, (BoolV, SymBool)):
+                # a sequence indexed by a bool (False -> 0, True -> 1): decided like any other test of that bool
+                idx = IntV(1 if I.truth(idx, I.up(node) if node is not None else "") else 0)
             if isinstance(idx, IntV):
                 try:
                     return base.items[idx.v]
@@ -324,8 +332,11 @@ class Builtins:
             if h is not None:
                 return Str((h.derive(f"[{I.show(idx)}]"),))
             return Str((Hole(tag, "char"),))
-        if isinstance(base, Unknown) and "group0" in base.meta and isinstance(idx, IntV) and idx.v == 0:
-            return base.meta["group0"]
+        if isinstance(base, Unknown) and isinstance(idx, IntV) and \
+                ("group0" in base.meta or "template_groups" in base.meta or "concrete_groups" in base.meta):
+            g = I.match_group(base, idx.v, node, fr)
+            if g is not None:
+                return g
         if isinstance(base, Unknown):
             return Unknown(f"{base.tag}[{I.show(idx)}]", {"recv": base, "index": idx,
                                                           "expr": f"{I.expr_of(base)}[{I.expr_of(idx)}]"})
@@ -410,12 +421,13 @@ class Builtins:
 
     def unpack(self, v: Value, n: int, node, fr) -> List[Value]:
         I = self.I
+        v = I.as_tuple(v)
         if isinstance(v, (ListV, TupleV)) and getattr(v, "absorbed", None) is None:
             if len(v.items) != n:
                 I.raise_exc("ValueError", [Str.lit("unpack length mismatch")], node, fr)
             return list(v.items)
         if isinstance(v, Unknown):
-            return [Unknown(f"{v.tag}[{i}]", {"recv": v, "index": IntV(i)}) for i in range(n)]
+            return [self.subscript(v, IntV(i), node, fr) for i in range(n)]      # a, b = u  is  a = u[0]; b = u[1]
         if isinstance(v, AbsList):
             if "split" in v.flags:
                 base, sep = v.flags["split"]
@@ -443,7 +455,7 @@ class Builtins:
 
     def iterate(self, it: Value, node, fr) -> Iterator[Tuple[str, Value, str]]:
         I = self.I
-        it = self.use_iter(it)
+        it = I.as_tuple(self.use_iter(it))
         if isinstance(it, ListV) and it.absorbed is not None:
             it = it.absorbed
         if isinstance(it, (ListV, TupleV, SetV)):
@@ -492,6 +504,20 @@ class Builtins:
                     elem, src, flags = it.elem, it.src, dict(it.flags)
                 else:
                     elem, src, flags = Unknown(f"{it.tag}[*]", {"elem_of": it, "not_none": True}), it.tag, {}
+                # `... for x in xs if isinstance(x, T)`: what survives the filter is a T. The surviving element is a
+                # refined copy (own tag, same expression), so nothing is assumed about the unfiltered elements
+                if isinstance(elem, Unknown) and elem.meta.get("type") is None and isinstance(g.target, ast.Name):
+                    tests = [c for c in g.ifs if isinstance(c, ast.Call) and isinstance(c.func, ast.Name) and
+                             c.func.id == "isinstance" and len(c.args) == 2 and not c.keywords and
+                             isinstance(c.args[0], ast.Name) and c.args[0].id == g.target.id]
+                    if tests:
+                        refined = Unknown(I.run.new_tag(elem.tag + "|filtered"), dict(elem.meta, refined_from=elem,
+                                                                                      expr=I.expr_of(elem)))
+                        for c in tests:
+                            names = self.type_names(I.eval(c.args[1], fr), c, fr)
+                            if len(names) == 1:
+                                I.run.set_assumption(("isinstance", refined.tag, names[0]), True)
+                        elem = refined
                 I.assign(g.target, elem, fr)
                 filters = list(flags.get("filters", []))
                 for cond in g.ifs:
@@ -731,6 +757,16 @@ class Builtins:
                 I.raise_exc(type(exc).__name__, [Str.lit(str(exc))], node, fr)
             return I.lift(r)
         from . import tokrx
+        if name in ("split", "rsplit"):
+            # explicit spellings of the defaults: split(sep=x), split(x, -1), split(x, maxsplit=-1)
+            if "sep" in kwargs and not args:
+                args, kwargs = [kwargs["sep"]], {k: v for k, v in kwargs.items() if k != "sep"}
+            if isinstance(kwargs.get("maxsplit"), IntV) and kwargs["maxsplit"].v == -1:
+                kwargs = {k: v for k, v in kwargs.items() if k != "maxsplit"}
+            if len(args) == 2 and isinstance(args[1], IntV) and args[1].v == -1:
+                args = args[:1]
+        if name == "replace" and len(args) == 3 and isinstance(args[2], IntV) and args[2].v == -1:
+            args = args[:2]
         if tokrx.is_tok_template(s) and name in ("split", "replace") and not kwargs:
             try:
                 if name == "split" and len(args) == 1 and isinstance(args[0], Str) and args[0].is_concrete():
@@ -832,7 +868,8 @@ class Builtins:
         if name == "encode":
             return Unknown(I.run.new_tag("bytes"))
         if name in ("partition", "rpartition"):
-            return Unknown(I.run.new_tag(f"{s.render()}.{name}({argtxt})"))
+            return Unknown(I.run.new_tag(f"{s.render()}.{name}({argtxt})"),
+                           {"expr": f"{I.expr_of(s)}.{name}({', '.join(I.expr_of(a) for a in args)})", "not_none": True})
         if name not in dir(str):
             I.raise_exc("AttributeError", [Str.lit(f"'str' object has no attribute '{name}'")], node, fr)
         raise I.unsupported(f"str.{name} on {s!r}", node, fr)
@@ -1080,7 +1117,7 @@ class Builtins:
 
     def x_len(self, args, kwargs, node, fr) -> Value:
         I = self.I
-        v = args[0]
+        v = I.as_tuple(args[0])
         if isinstance(v, ListV) and v.absorbed is not None:
             v = v.absorbed
         if isinstance(v, (ListV, TupleV, SetV)):
@@ -1365,6 +1402,10 @@ class Builtins:
         m = {"extern": name, "args": args, "kwargs": kwargs, "expr": f"{name}({argtxt})"}
         m.update(meta)
         if meta.get("match_or_none"):
+            # flags=0 written out is the default
+            kwargs = {k: v for k, v in kwargs.items() if not (k == "flags" and isinstance(v, IntV) and v.v == 0)}
+            if len(args) == 3 and isinstance(args[2], IntV) and args[2].v == 0:
+                args = args[:2]
             pat = args[0] if args else kwargs.get("pattern")
             subj = args[1] if len(args) > 1 else kwargs.get("string")
             from . import tokrx
